@@ -40,7 +40,7 @@ def Ev.isCrash : Ev → Bool
 /-- `resolve_field`, up to and including the resolver call -/
 def resolveField (reg : Reg) (fuel : Nat) (env : List (String × PV)) (sel : FieldSel) : Ev :=
   match coerceArgumentValues reg fuel env sel.args sel.defs with
-  | .ok kw => .call sel.key kw
+  | .ok kw => .call sel.key (dictOfAssignments kw)      -- `coerced_values[target_name] = …` builds a dict
   | .error .coercion => .fieldError sel.key
   | .error _ => .crash
 
